@@ -155,7 +155,7 @@ class Hist:
         free_s, dead_o, dead_t = self.free_sids(), self.dead_objs(), self.dead_tabs()
         if dead_o and free_s:
             c += ["NewVec"] * 3 + (["Copy"] * 2 if vecs else [])
-        if dead_o and vecs:
+        if dead_o and vecs and free_s:
             c += ["ConcatEmpty"]
         if dead_o and self.tup:
             c += ["ShareVec"] * 2
@@ -233,7 +233,9 @@ class Hist:
                 return None
             ev["x"] = src
             o = dead_o[0]
-            v = sv << []
+            v = (sv << []) if rnd.random() < 0.5 else (sv << ())        # ([] << sv re-infers the dtype from the values: another operation)
+            if v._underlying is not sv._underlying:
+                self.sid_of[id(v._underlying)] = free_s[0]      # an operation result lives on fresh storage
             self.held[o] = v
             self.see(o, v)
             del sv
